@@ -3,6 +3,7 @@
 package core
 
 import (
+	"runtime/pprof"
 	"crypto/sha1"
 	"encoding/hex"
 	"encoding/json"
@@ -296,6 +297,15 @@ func (c *Ctx) Finish(recheck func(caseJSON []byte) *Fail) int {
 		cov["unreproduced"] = unreproduced
 	}
 	cov["known_findings_hit"] = knownHit
+	if gp := os.Getenv("VERIF_GOROUTINE_PROFILE"); gp != "" {
+		if f, err := os.Create(gp); err == nil {
+			pprof.Lookup("goroutine").WriteTo(f, 1)
+			f.Close()
+		}
+	}
+	var ms runtime.MemStats
+	runtime.ReadMemStats(&ms)
+	cov["process_at_end"] = map[string]any{"goroutines": runtime.NumGoroutine(), "heap_in_use_mb": ms.HeapInuse >> 20, "sys_mb": ms.Sys >> 20, "gc_cycles": ms.NumGC}
 	ev := map[string]any{
 		"property_id": c.Prop,
 		"tier":        c.Tier,
